@@ -403,4 +403,88 @@ theorem trimesh2_local_aabb_tight (rmax : K) (vs : List (V2 K)) (idx : List (Nat
 
 example : InRange2 (10:ℚ) ⟨⟨0, 1⟩, ⟨3, 4⟩⟩ := by simp [InRange2]; norm_num
 
+/-- **`Compound::local_aabb` (2-D)**: each face of the compound box is the corresponding face of the box of one of the parts. -/
+theorem compound2_local_aabb_tight (rmax hm : K) (parts : List (Iso2 K × BShape2 K)) (box : Aabb2 K) (hne : parts ≠ []) :
+    letI := fieldNum K sq
+    compoundLocalAabb2 rmax hm parts = some box →
+    (∀ ms ∈ parts, ∀ l, ms.2.aabb hm ms.1 = some l → InRange2 rmax l) →
+    (∃ ms ∈ parts, ∃ l, ms.2.aabb hm ms.1 = some l ∧ box.maxs.x = l.maxs.x) ∧
+    (∃ ms ∈ parts, ∃ l, ms.2.aabb hm ms.1 = some l ∧ box.mins.x = l.mins.x) ∧
+    (∃ ms ∈ parts, ∃ l, ms.2.aabb hm ms.1 = some l ∧ box.maxs.y = l.maxs.y) ∧
+    (∃ ms ∈ parts, ∃ l, ms.2.aabb hm ms.1 = some l ∧ box.mins.y = l.mins.y) := by
+  intro h hr
+  simp only [compoundLocalAabb2, Option.map_eq_some_iff] at h
+  obtain ⟨leaves, hl, rfl⟩ := h
+  have leaf : ∀ l ∈ leaves, ∃ ms ∈ parts, @BShape2.aabb K (fieldNum K sq) hm ms.1 ms.2 = some l := fun l hlm => mapM_rev2 _ _ _ hl l hlm
+  have hne' : leaves ≠ [] := by
+    obtain ⟨t, ht⟩ := List.exists_mem_of_ne_nil parts hne
+    obtain ⟨y, hy, _⟩ := mapM_fwd2 _ _ _ hl t ht
+    exact List.ne_nil_of_mem hy
+  have hin : ∀ l ∈ leaves, InRange2 rmax l := by
+    intro l hlm
+    obtain ⟨ms, hms, e⟩ := leaf l hlm
+    exact hr ms hms l e
+  obtain ⟨⟨l1, h1, e1⟩, ⟨l2, h2, e2⟩, ⟨l3, h3, e3⟩, ⟨l4, h4, e4⟩⟩ := root_aabb2_tight sq rmax leaves hne' hin
+  refine ⟨?_, ?_, ?_, ?_⟩
+  · obtain ⟨ms, hms, e⟩ := leaf l1 h1; exact ⟨ms, hms, l1, e, e1⟩
+  · obtain ⟨ms, hms, e⟩ := leaf l2 h2; exact ⟨ms, hms, l2, e, e2⟩
+  · obtain ⟨ms, hms, e⟩ := leaf l3 h3; exact ⟨ms, hms, l3, e, e3⟩
+  · obtain ⟨ms, hms, e⟩ := leaf l4 h4; exact ⟨ms, hms, l4, e, e4⟩
+
+private theorem fmax_att (hs : List K) : ∀ acc : K, hs.foldl (fun a b => max a b) acc = acc ∨ hs.foldl (fun a b => max a b) acc ∈ hs := by
+  induction hs with
+  | nil => intro acc; exact Or.inl rfl
+  | cons x xs ih =>
+    intro acc
+    simp only [List.foldl_cons, List.mem_cons]
+    rcases ih (max acc x) with h | h
+    · rcases le_total acc x with hle | hle
+      · right; left; rw [h, max_eq_right hle]
+      · left; rw [h, max_eq_left hle]
+    · right; right; exact h
+private theorem fmin_att (hs : List K) : ∀ acc : K, hs.foldl (fun a b => min a b) acc = acc ∨ hs.foldl (fun a b => min a b) acc ∈ hs := by
+  induction hs with
+  | nil => intro acc; exact Or.inl rfl
+  | cons x xs ih =>
+    intro acc
+    simp only [List.foldl_cons, List.mem_cons]
+    rcases ih (min acc x) with h | h
+    · rcases le_total acc x with hle | hle
+      · left; rw [h, min_eq_left hle]
+      · right; left; rw [h, min_eq_right hle]
+    · right; right; exact h
+
+/-- **the HeightField box (2-D, as corrected) is exact**: for every scale vector, of any signs, each of the four faces
+carries a vertex `(±s.x/2, h·s.y)` resp. a vertex of extreme height. -/
+theorem heightfield2_aabb_tight (h0 : K) (hs : List K) (s : V2 K) :
+    letI := fieldNum K sq
+    Touches2 (fun q => ∃ u h, (-(1/2) ≤ u ∧ u ≤ 1/2) ∧ h ∈ h0 :: hs ∧ q = ⟨u * s.x, h * s.y⟩) (heightfieldAabb2 h0 hs s) := by
+  have hl : ((mkRat 1 2 : Rat) : K) = 1/2 := by norm_num
+  have hmaxm : hs.foldl (fun a b => max a b) h0 ∈ h0 :: hs := by
+    rcases fmax_att hs h0 with h | h
+    · rw [h]; exact List.mem_cons_self ..
+    · exact List.mem_cons_of_mem _ h
+  have hminm : hs.foldl (fun a b => min a b) h0 ∈ h0 :: hs := by
+    rcases fmin_att hs h0 with h | h
+    · rw [h]; exact List.mem_cons_self ..
+    · exact List.mem_cons_of_mem _ h
+  have half : (-(1/2) ≤ (1/2 : K) ∧ (1/2 : K) ≤ 1/2) := ⟨by norm_num, le_refl _⟩
+  have nhalf : (-(1/2) ≤ -(1/2 : K) ∧ -(1/2 : K) ≤ 1/2) := ⟨le_refl _, by norm_num⟩
+  simp only [Touches2, heightfieldAabb2, listMax, listMin, V2.inf, V2.sup, V2.smul, fieldNum_nmin, fieldNum_nmax, fieldNum_lit, hl]
+  set mx := hs.foldl (fun a b => max a b) h0
+  set mn := hs.foldl (fun a b => min a b) h0
+  refine ⟨?_, ?_, ?_, ?_⟩
+  · rcases le_total 0 s.x with h | h
+    · exact ⟨_, ⟨1/2, h0, half, List.mem_cons_self .., rfl⟩, by show (1/2 : K) * s.x = _; rw [max_eq_right (by linarith)]; ring⟩
+    · exact ⟨_, ⟨-(1/2), h0, nhalf, List.mem_cons_self .., rfl⟩, by show (-(1/2) : K) * s.x = _; rw [max_eq_left (by linarith)]; ring⟩
+  · rcases le_total 0 s.x with h | h
+    · exact ⟨_, ⟨-(1/2), h0, nhalf, List.mem_cons_self .., rfl⟩, by show (-(1/2) : K) * s.x = _; rw [min_eq_left (by linarith)]; ring⟩
+    · exact ⟨_, ⟨1/2, h0, half, List.mem_cons_self .., rfl⟩, by show (1/2 : K) * s.x = _; rw [min_eq_right (by linarith)]; ring⟩
+  · rcases le_total (mn * s.y) (mx * s.y) with h | h
+    · exact ⟨_, ⟨1/2, mx, half, hmaxm, rfl⟩, by show mx * s.y = _; rw [max_eq_right h]⟩
+    · exact ⟨_, ⟨1/2, mn, half, hminm, rfl⟩, by show mn * s.y = _; rw [max_eq_left h]⟩
+  · rcases le_total (mn * s.y) (mx * s.y) with h | h
+    · exact ⟨_, ⟨1/2, mn, half, hminm, rfl⟩, by show mn * s.y = _; rw [min_eq_left h]⟩
+    · exact ⟨_, ⟨1/2, mx, half, hmaxm, rfl⟩, by show mx * s.y = _; rw [min_eq_right h]⟩
+
 end C09
